@@ -119,13 +119,13 @@ def chunks(seq, size=None, dfmt="f", byte_order=None, padval=0.):
     chunk[idx] = el
     idx += 1
     if idx == size:
-      yield chunk.tostring()
+      yield chunk.tobytes()
       idx = 0
 
   if idx != 0:
     for idx in xrange(idx, size):
       chunk[idx] = padval
-    yield chunk.tostring()
+    yield chunk.tobytes()
 
 
 class RecStream(Stream):
